@@ -3,6 +3,7 @@ import Dm.Driver.FmtXCmd
 import Dm.Driver.SplitCmd
 import Dm.Driver.ErrCmd
 import Dm.Driver.TfCmd
+import Dm.Driver.FsCmd
 
 /- Line-protocol driver of the Lean model: one request per line, one answer per line. -/
 
@@ -15,6 +16,7 @@ def handle (line : String) : String :=
   | "fmt" :: args => Dm.FmtCmd.cmdFmt args
   | "std" :: args => Dm.FmtCmd.cmdStd args
   | "es" :: args => Dm.ErrCmd.cmdEs args
+  | "fs" :: args => Dm.FsCmd.cmdFs args
   | _ => "bad-op"
 
 partial def loop (h : IO.FS.Stream) (out : IO.FS.Stream) : IO Unit := do
